@@ -6,7 +6,7 @@
 From hls Require Import Base Float Lex Kinds Types Tags Line Keys Media.
 From hls.Generated Require Import Tables.
 From hls Require Import Master.
-From hls.Proofs Require Import Build Parse MediaProps Lexical Assembly MasterOrder Values MediaText C03Items ParsedBuilt.
+From hls.Proofs Require Import Build Parse MediaProps Lexical Assembly MasterOrder Values MediaText C03Items ParsedBuilt Restyle.
 Open Scope N_scope.
 
 (* L2: the tokenizer returns exactly the rendered (name, value) pairs, whatever the padding
@@ -96,6 +96,22 @@ Check C01_canonical_text : forall p raws, wf_media p = true -> built_ok p raws -
   /\ mp_start (reread p) = mp_start p /\ mp_endlist (reread p) = mp_endlist p /\ mp_unknown (reread p) = mp_unknown p
   /\ Forall2 seg_same (mp_segs (reread p)) (mp_segs p).
 Print Assumptions C01_canonical_text.
+
+(* ... and for every other presentation of that text: any text whose cleaned lines are related to those of the canonical
+   text by the closure of the presentation changes of C12 (comments, redundant version tags, other spellings of a tag's
+   attribute list, permuted free tags; CRLF / blank lines / padding do not even change the cleaned lines) parses to the
+   same value *)
+Theorem C01_styled_text : forall p raws t r r0, wf_media p = true -> built_ok p raws ->
+  tag t pfx_ExtM3u = Ok r -> tag (print_media p) pfx_ExtM3u = Ok r0 -> restyle_media (clean_lines r) (clean_lines r0) ->
+  parse_media t = Ok (reread p).
+Proof.
+  intros p raws t r r0 Hw Hb Ht Ht0 HR. unfold parse_media. rewrite (restyle_parse_media t (print_media p) r r0 mb_default Ht Ht0 HR).
+  apply (media_text_roundtrip p raws Hw Hb).
+Qed.
+Check C01_styled_text : forall p raws t r r0, wf_media p = true -> built_ok p raws ->
+  tag t pfx_ExtM3u = Ok r -> tag (print_media p) pfx_ExtM3u = Ok r0 -> restyle_media (clean_lines r) (clean_lines r0) ->
+  parse_media t = Ok (reread p).
+Print Assumptions C01_styled_text.
 
 Example C01_example :
   attr_pairs (lit " URI = ""a,b=c"" ,IV=0x12,  X=""q""") = [(lit "URI", lit """a,b=c"""); (lit "IV", lit "0x12"); (lit "X", lit """q""")]
